@@ -284,6 +284,7 @@ class Rig:
         return s
 
     async def close(self):
+        self.release_query_slots()
         for c in list(self.conns):
             if not c.task.done():
                 await c.disconnect()
@@ -424,6 +425,27 @@ class Rig:
                 for k, v in c.iternext():
                     out.append((bytes(k), bytes(v)))
             return out
+
+    async def hold_query_slots(self):
+        """SQL: take every free query slot (as long-running queries of other clients would): stored queries started from
+        now on stay 'in flight' until release_query_slots()"""
+        if self.backend != "sql" or self.storage is None:
+            return False
+        sem = self.storage.query_slot
+        took = False
+        while not sem.locked():
+            await sem.acquire()
+            self._held_slots = getattr(self, "_held_slots", 0) + 1
+            took = True
+        return took
+
+    def release_query_slots(self):
+        n = getattr(self, "_held_slots", 0)
+        self._held_slots = 0
+        if self.storage is not None and self.backend == "sql":
+            for _ in range(n):
+                self.storage.query_slot.release()
+        return n > 0
 
     def conn(self, addr="10.1.2.3", rate_limiter=None):
         c = Conn(self, addr, rate_limiter)
@@ -644,10 +666,12 @@ async def settle(rig, pump=True, budget=20000):
                 continue  # sender task waiting for its subscription queue
             if name == "wait" and ("_send", __file__) in chain and any(cc.stalled for cc in rig.conns):
                 continue  # sender task of a connection whose peer does not read
+            if name == "_wait_for_data" and fn.endswith("streams.py"):
+                continue  # a StreamReader the harness feeds (notifier links): waiting for bytes is being idle
             if name == "sleep" and fn.endswith("tasks.py"):
                 sleeping = True
                 continue
-            if ((name == "acquire" and fn.endswith("locks.py")) or (name == "put" and fn.endswith("queues.py"))
+            if ((name in ("acquire", "wait") and fn.endswith("locks.py")) or (name == "put" and fn.endswith("queues.py"))
                     or (name == "_wait" and fn.endswith("tasks.py"))):
                 # waiting for a semaphore/lock somebody else must release, or for room in a bounded queue somebody
                 # else must drain, or (asyncio.wait) for tasks that are themselves stuck that way: if nothing else can
@@ -666,6 +690,8 @@ async def settle(rig, pump=True, budget=20000):
             stable = 0
             continue
         stable += 1
+        if lockwait and rig.backend == "sql":
+            _time.sleep(0.0005)  # what looks like a lock wait may be waiting for a database thread: give it time, not spin
         if stable >= (50 if lockwait else 3):
             # tasks still waiting for a lock while nothing else can run: a leaked lock/semaphore
             rig.stuck = [[n for n, _ in ch][-4:] for ch in lockwait]
